@@ -328,6 +328,20 @@ def numeric(rng, tier):
         o = pp.chspline(pts, interval=itv); evals += 1
         if o.shape[0] != (pts.shape[0] - 1) * kk + 1 or float((o[::kk] - pts).abs().max()) > 1e-9:
             fails.append(dict(clause='chspline_count_and_interpolation', signature=f'itv={itv},N={pts.shape[0]}', got=o.shape[0]))
+        # chspline: a uniformly sampled straight line is reproduced to the precision of the INPUT dtype, also between the knots and for
+        # intervals that float32 cannot represent (a time grid built in another precision shows up here only)
+        for dt_, tol_ in ((torch.float64, 1e-12), (torch.float32, 1e-5)):
+            Nl = rng.choice([2, 7, 33, 60]); itl = rng.choice([0.1, 0.3, 0.7, 0.25])
+            a_ = torch.randn(1, 3, dtype=dt_); b_ = torch.randn(1, 3, dtype=dt_) * 3
+            line = a_ + b_ * torch.arange(Nl, dtype=dt_).view(-1, 1)
+            ol = pp.chspline(line, interval=itl); evals += 1
+            g64 = torch.arange(0, 1, itl, dtype=d); kl = g64.numel()
+            Tl = (torch.arange(Nl, dtype=d).view(-1, 1) + g64).view(-1)[:(Nl - 1) * kl + 1]
+            refl = a_.double() + b_.double() * Tl.view(-1, 1)
+            if ol.dtype != dt_ or ol.shape != refl.shape:
+                fails.append(dict(clause='chspline_line_dtype_shape', signature=f'{dt_},itv={itl},N={Nl}', got=f'{ol.dtype},{tuple(ol.shape)}'))
+            elif float((ol.double() - refl).abs().max()) > tol_ * (1 + float(refl.abs().max())):
+                fails.append(dict(clause='chspline_straight_line_to_input_precision', signature=f'{dt_},itv={itl},N={Nl}', err=float((ol.double() - refl).abs().max())))
         if t < 2: samples.append(dict(n=n, itv=itv))
         if len(fails) > 8: break
     return dict(evaluations=evals, distinct_nontrivial=evals, rule='random trajectories of 3..200 poses with timestamp jitter below the association threshold; random constant-twist splines; each call counted',
